@@ -230,6 +230,21 @@ def draw_grid(rng, n=None, families=GRID_FAMILIES, lattice=False, nmax=40):
     elif fam == "bigstep":
         inc = np.array([10.0 ** rng.uniform(0, 4) for _ in range(n - 1)])
         t = np.concatenate([[0.0], np.cumsum(inc)])
+    elif fam == "tiny":
+        # very small, strongly varying increments (absolute tolerances on dt become visible)
+        lo = rng.uniform(-10, -6)
+        inc = np.array([10.0 ** (lo + rng.uniform(0, 2)) for _ in range(n - 1)])
+        t = np.concatenate([[0.0], np.cumsum(inc)])
+    elif fam == "nearly_uniform":
+        # uniform spacing with a small relative jitter (a lagged or cached increment is nearly right)
+        jit = 10.0 ** rng.uniform(-7, -2)
+        inc = np.array([1.0 + jit * rng.uniform(-1, 1) for _ in range(n - 1)]) * (T / max(1, n - 1))
+        t = np.concatenate([[0.0], np.cumsum(inc)])
+    elif fam == "ramp":
+        # slowly growing increments: consecutive steps differ by a small relative amount
+        r = 1.0 + 10.0 ** rng.uniform(-6, -1)
+        inc = (T / max(1, n - 1)) * r ** np.arange(n - 1)
+        t = np.concatenate([[0.0], np.cumsum(inc)])
     else:
         raise ValueError(fam)
     t = t + t0
